@@ -6,6 +6,7 @@ import (
 	"path/filepath"
 	"sort"
 
+	"seehuhn.de/go/sfnt/glyph"
 	"seehuhn.de/go/sfnt/header"
 
 	"verif/harness/internal/mon"
@@ -115,3 +116,5 @@ func addTable(b []byte, tag string, data []byte) []byte {
 	}
 	return buf.Bytes()
 }
+
+func glyphID(i int) glyph.ID { return glyph.ID(i) }
